@@ -12,12 +12,23 @@ MANIFEST = dict(
          "correspondence against the real functions and Model.batch_evaluate_log_likelihood / _log_prior / "
          "_log_prior_unit_hypercube (physical and unit-hypercube mode, parallelise_prior on/off, distinct exactly rounded "
          "likelihood / prior / hypercube-prior functions so that a mixed-up wrapper is visible) with a fake order-preserving "
-         "pool (real fork pools in the thorough tier).",
+         "pool (real fork pools in the thorough tier). SOURCE TIE: the if-tree of batch_evaluate_function and the way each of "
+         "its six leaves calls the user function are regenerated from the current source on every run (harness/c10_tx.py -> "
+         "Gen/BatchTx.lean) and batch_calls_source_eq_model re-proves, for every input, that the generated tree hands over "
+         "exactly the batches of the model and goes through pool.map exactly when a pool is given.",
     note="Assumed: Pool.map preserves order; the user function is batch-consistent. 'counter += n once' is definitional in the model "
          "(batchEvalCount returns n by construction) and the unit-hypercube mapping / wrapper selection / parallelise_prior switch "
          "have no theorem: all three are established by the correspondence against the real Model methods only.",
-    technique="Lean 4 proof (induction over lists) + differential correspondence with the real functions",
+    technique="Lean 4 proof (induction over lists) + source-to-Lean translation of the dispatch tree of "
+              "batch_evaluate_function re-proved equal to the model on every run + differential correspondence with the real "
+              "functions",
     ref="5/C10")
+
+
+def gen(ctx):
+    """regenerate Gen/BatchTx.lean from the current source of batch_evaluate_function (harness/c10_tx.py)"""
+    from . import c10_tx
+    c10_tx.gen(ctx)
 
 
 class FakePool:
